@@ -1,7 +1,7 @@
 """C03  SO(3)/SE(3) derivative routines are the derivatives of their maps.
 
 Engine E1: complete product  direction x log-uniform magnitude ladder  of rotation vectors (incl.
-psi = 0 and 1e-9 .. 1e-1 decade by decade), per psi 4 rates psi_dot and 3 translations r, and the
+psi = 0, 1e-12 and 1e-10 .. 1e-1 decade by decade), per psi 4 rates psi_dot and 3 translations r, and the
 complete integer grid {-2..3}^4 minus 0 for the quaternion tangent maps.
 
 Oracle: central differences (step 1e-25) of the 60-digit mpmath reference maps of vp/scen/refrot.py
@@ -24,7 +24,7 @@ from vp.core import alphabet as al
 ID = "C03"
 LEVEL = "model_checking"
 RULE = (
-    "psi = m*d over the full product of 26 lattice + 3 seed-rotated generic directions d and m in {0,1e-9,1e-8,...,1e-1,.5,1,2,3,pi-1e-2}; "
+    "psi = m*d over the full product of 26 lattice + 3 (thorough: 12) seed-rotated generic directions d and m in {0,1e-12,1e-10,1e-9,1e-8,...,1e-1,.5,1,2,3,pi-1e-2} plus two branch letters near 1e-10 and 1e-12 at which x*(1/tan x) rounds below 1; "
     "per psi: all 27 entries of Exp_SO3_psi, T_SO3_psi, T_SO3_inv_psi, T_SO3_dot for 4 rates, Log_SO3_A along 3 tangent directions, "
     "Exp_SE3_h (all 96 entries) and Log_SE3_H (6 tangent twists) for 3 translations; T_SO3_quat_P / T_SO3_inv_quat_P (both "
     "normalize flags) on the full grid {-2..3}^4 minus 0 plus 6 generic quaternions.  A case is non-trivial if every routine "
@@ -40,12 +40,26 @@ MIN_NONTRIVIAL = 300
 CASE_TIMEOUT = 120
 TOL = 1e-6
 PI = math.pi
-MAGS = [1.0, 0.5, 2.0, 3.0, 0.1, 0.0] + [10.0 ** (-k) for k in range(2, 10)] + [PI - 1e-2]
+
+
+def _gamma_rounds_down(base):
+    """special letter: the first magnitude m = base*(1+k/1000) for which the float expression of
+    T_SO3_inv_psi, gamma = x*(1/tan x) with x = m/2, rounds to 1 - 2^-53 instead of 1 (about 15 % of all
+    tiny x); there (1-gamma)/angle^2 = 1.1e-16/m^2 instead of 1/12."""
+    for k in range(1000):
+        m = base * (1 + k / 1000.0)
+        x = 0.5 * m
+        if x * (1.0 / math.tan(x)) != 1.0:
+            return m
+    return base
+
+
+MAGS = [1.0, 0.5, 2.0, 3.0, 0.1, 0.0] + [10.0 ** (-k) for k in range(2, 11)] + [1e-12, _gamma_rounds_down(1e-10), _gamma_rounds_down(1e-12), PI - 1e-2]
 GRID = list(range(-2, 4))
 
 
-def directions(seed):
-    return al.lattice_dirs() + [al.generic_unit(seed, k) for k in range(3)]
+def directions(seed, tier="quick"):
+    return al.lattice_dirs() + [al.generic_unit(seed, k) for k in range(3 if tier == "quick" else 12)]
 
 
 def psi_dots(seed):
@@ -58,10 +72,10 @@ def translations(seed):
 
 def cases(tier, seed):
     out = []
-    D = directions(seed)
-    for mi, m in enumerate(MAGS):
+    D = directions(seed, tier)
+    for mi, m in enumerate(MAGS if tier == "quick" else MAGS + [0.25, 1.5, 2.5, 3.1, 3e-2, 3e-4, 3e-6, 3e-8]):
         for di in range(len(D)):
-            out.append({"kind": "psi", "dir": di, "m": m, "seed": seed})
+            out.append({"kind": "psi", "tier": tier, "dir": di, "m": m, "seed": seed})
     for p0, p1 in itertools.product(GRID, repeat=2):
         out.append({"kind": "quat", "prefix": [p0, p1], "seed": seed})
     out.append({"kind": "quat_generic", "seed": seed})
@@ -195,7 +209,7 @@ def check(case):
             n += 1
         return {"fails": F.list(), "nontrivial": n > 0, "evals": F.n, "outcome": "quaternion tangent maps", "stats": dict(F.stats, n_quat_letters=n)}
 
-    d = directions(seed)[case["dir"]]
+    d = directions(seed, case.get("tier", "quick"))[case["dir"]]
     m = case["m"]
     psi = m * d
     a = float(np.sqrt(psi @ psi))
